@@ -256,9 +256,11 @@ ModeFromFlags == Done => \A r \in All : /\ r.mode \in Modes \cup {"any"}
 FlagsFaithful ==
   Done => /\ \A k \in Sel(Tab, Must) \cup Sel(Tab, May) :
                LET d == Tab[k]  w == Row(d).flags
+                   on(f) == (w \div Bit(f)) % 2 = 1
                IN /\ w % 4 = d.acc
-                  /\ \A f \in FlagsAll : ((w \div Bit(f)) % 2 = 1) = (f \in Kept(d.fl))
-          /\ LET strip == [k \in DOMAIN Tab |-> [Tab[k] EXCEPT !.fl = Kept(@)]]
+                  /\ \A f \in FlagsAll \ {"CREAT", "TRUNC"} : on(f) = (f \in d.fl)
+                  /\ ~on("CREAT") /\ ~on("TRUNC")
+          /\ LET strip == [k \in DOMAIN Tab |-> [Tab[k] EXCEPT !.fl = @ \ {"CREAT", "TRUNC"}]]
              IN F([inp EXCEPT !.tab = strip]) = out
 
 \* blank and malformed lines never change io_counters(); the six counters come
